@@ -558,7 +558,10 @@ func routeTok(m map[string]interface{}) vT {
 }
 
 func describe(m map[string]interface{}) map[string]interface{} {
-	return map[string]interface{}{"m": m["m"], "tok": routeTok(m)}
+	// del: the message asks the timers service to delete a timer that does not exist - every delivery to the service is
+	// answered with one "error for deleteTimer" on the Errors channel (that is how deliveries to the service are counted)
+	_, del := m["deleteTimer"]
+	return map[string]interface{}{"m": m["m"], "tok": routeTok(m), "del": del}
 }
 
 func describeAll(ms []interface{}) vT {
@@ -584,6 +587,7 @@ func routeHistory(id int, rng *rand.Rand, dir string) vO {
 		}
 		os.Remove(filepath.Join(dir, "verif.db"))
 	}()
+	s.Errors = make(chan interface{}, 4096)
 	var mu sync.Mutex
 	processed := vT{}
 	last := time.Now()
@@ -612,6 +616,9 @@ func routeHistory(id int, rng *rand.Rand, dir string) vO {
 				m["to"] = []interface{}{"c", "nobody", "c", float64(3)}
 			case "#wslist": // a service (here: one that nobody listens to) named next to a machine
 				m["to"] = []interface{}{"ws", "c"}
+			case "#tlist": // a service named twice, next to a machine and things that are not ids
+				m["to"] = []interface{}{"timers", "c", map[string]interface{}{"mid": "b"}, "timers", []interface{}{"a"}}
+				m["deleteTimer"] = "nosuchtimer"
 			default:
 				m["to"] = to
 			}
@@ -619,7 +626,7 @@ func routeHistory(id int, rng *rand.Rand, dir string) vO {
 		}
 		return out
 	}
-	emits := map[string][]interface{}{"a": mk([]string{"b", "c", "c", "nobody", "#list", "#wslist"}), "b": mk([]string{"c", "nobody", "#list", "#wslist"}), "c": {}}
+	emits := map[string][]interface{}{"a": mk([]string{"b", "c", "c", "nobody", "#list", "#wslist", "#tlist"}), "b": mk([]string{"c", "nobody", "#list", "#wslist", "#tlist"}), "c": {}}
 	// The first history of every run is the burst scenario of the known finding F-C14-mcrew-emitted-dropped: the host's
 	// Emitted channel holds 2 messages (mcrew's main.go gives it 8), one step emits 5, and the host reads the channel only
 	// after processing has gone quiet.
@@ -650,7 +657,7 @@ func routeHistory(id int, rng *rand.Rand, dir string) vO {
 	for i, n := 0, 1+rng.Intn(2); i < n && !(burst && i > 0); i++ {
 		seq++
 		m := map[string]interface{}{"m": "x" + strconv.Itoa(seq)}
-		switch k := rng.Intn(10); {
+		switch k := rng.Intn(11); {
 		case burst:
 			m["to"] = "a"
 		case k == 0: // broadcast
@@ -669,6 +676,9 @@ func routeHistory(id int, rng *rand.Rand, dir string) vO {
 			m["to"] = []interface{}{"b", "b", float64(7), "nobody", "a"}
 		case k == 7:
 			m["to"] = []interface{}{"ws", "a"}
+		case k == 8:
+			m["to"] = []interface{}{"timers", "timers", map[string]interface{}{"mid": "b"}, "a", "timers"}
+			m["deleteTimer"] = "nosuchtimer"
 		default:
 			m["to"] = "a"
 		}
@@ -712,8 +722,19 @@ func routeHistory(id int, rng *rand.Rand, dir string) vO {
 	mu.Lock()
 	pr := processed
 	mu.Unlock()
+	timerErrors := 0
+	for drained := false; !drained; {
+		select {
+		case e := <-s.Errors:
+			if strings.Contains(fmt.Sprint(e), "error for deleteTimer") {
+				timerErrors++
+			}
+		default:
+			drained = true
+		}
+	}
 	raw, _ := json.Marshal(vO{"machines": machines, "externals": externals})
-	return vO{"id": id, "kind": "mcrew-route", "host": "mcrew", "machines": machines, "externals": externals, "processed": pr, "logs": logs, "reported": reported, "burst": burst, "emittedBuffer": cap(s.Emitted), "raw": string(raw)}
+	return vO{"id": id, "kind": "mcrew-route", "host": "mcrew", "machines": machines, "externals": externals, "processed": pr, "logs": logs, "reported": reported, "burst": burst, "emittedBuffer": cap(s.Emitted), "timerErrors": timerErrors, "raw": string(raw)}
 }
 
 // ---------------------------------------------------------------- entry point
